@@ -283,6 +283,9 @@ impl Analyzer {
     /// rather than by project, so they are dropped whole and re-registered
     /// identically by the next parse.
     pub fn drop_file(path: PathId, prj: Option<StrId>) {
+        // Pending type-dag candidates name symbols of the old text; must
+        // precede `symbol_table::drop`, which it consults for the owner.
+        type_dag::drop_candidates(path, prj);
         // Must precede `drop_tokens`: it matches reference tokens against
         // their token scope.
         symbol_table::drop(path, prj);
